@@ -1368,7 +1368,7 @@ def run(ctx):
                     gs = rng.sample(gs, 64 if quick else 400)
                 specs += [(N, d, g, N <= 2 or rng.random() < (0.15 if quick else 0.3)) for g in gs]
         kinds = ["empty", "single", "sparse", "half", "dense", "full", "isolated"]
-        for _ in range(110 if quick else 580):
+        for _ in range(110 if quick else 440):
             N = rng.randrange(2, 13 if quick else 31)
             d = rng.random() < 0.5
             specs.append((N, d, random_graph(rng, N, d, rng.choice(kinds)),
